@@ -245,10 +245,168 @@ pub fn run_text(text: &str, kind: &str) -> CaseResult {
     CaseResult::Pass { nontrivial: true, hash: hash_str(text), classes, sample: Some(json!({"source": text, "kind": kind, "result": "compiled"})) }
 }
 
+// ------------------------------------------------------------------------------------------
+// declaration stress: polymorphic (co)data declarations whose fields mention declared types at
+// arbitrary type arguments (non-regular and mutual recursion included), used by a small
+// well-formed program.  Every text is compiled in a child process, so that an abort or a stack
+// exhaustion on a *small* input (no deep nesting) is observed instead of killing the check.
+// ------------------------------------------------------------------------------------------
+
+struct SDecl {
+    name: String,
+    params: usize,
+    codata: bool,
+}
+
+fn texpr(c: &mut Chooser, decls: &[SDecl], params: usize, depth: usize) -> String {
+    let w_decl = if depth == 0 || decls.is_empty() { 0 } else { 55 };
+    match c.weighted(&[20, if params > 0 { 30 } else { 0 }, w_decl]) {
+        0 => "i64".into(),
+        1 => ["A", "B"][c.choose(params)].into(),
+        _ => {
+            let d = &decls[c.choose(decls.len())];
+            if d.params == 0 {
+                d.name.clone()
+            } else {
+                let args: Vec<String> = (0..d.params).map(|_| texpr(c, decls, params, depth - 1)).collect();
+                format!("{}[{}]", d.name, args.join(", "))
+            }
+        }
+    }
+}
+
+pub fn decl_stress(bytes: &[u8]) -> String {
+    let mut c = Chooser::new(bytes);
+    let nd = 1 + c.weighted(&[30, 40, 20, 10]);
+    let nc = c.weighted(&[40, 40, 20]);
+    let mut decls = vec![];
+    for i in 0..nd {
+        decls.push(SDecl { name: format!("D{i}"), params: c.weighted(&[15, 55, 30]), codata: false });
+    }
+    for i in 0..nc {
+        decls.push(SDecl { name: format!("C{i}"), params: c.weighted(&[15, 55, 30]), codata: true });
+    }
+    let plist = |n: usize| match n {
+        0 => String::new(),
+        1 => "[A]".to_string(),
+        _ => "[A, B]".to_string(),
+    };
+    let ilist = |n: usize| match n {
+        0 => String::new(),
+        1 => "[i64]".to_string(),
+        _ => "[i64, i64]".to_string(),
+    };
+    let mut out = String::new();
+    let mut uses = vec![];
+    for (i, d) in decls.iter().enumerate() {
+        if !d.codata {
+            let nx = c.weighted(&[20, 50, 30]);
+            let mut xtors = vec![format!("N{i}")];
+            let mut clauses = vec![format!("N{i} => 0")];
+            for x in 0..nx {
+                let nf = 1 + c.weighted(&[55, 35, 10]);
+                let fields: Vec<String> = (0..nf).map(|f| format!("f{f}: {}", texpr(&mut c, &decls, d.params, 3))).collect();
+                xtors.push(format!("K{i}_{x}({})", fields.join(", ")));
+                let bs: Vec<String> = (0..nf).map(|f| format!("b{f}")).collect();
+                clauses.push(format!("K{i}_{x}({}) => {}", bs.join(", "), x + 1));
+            }
+            out.push_str(&format!("data {}{} {{ {} }}\n", d.name, plist(d.params), xtors.join(", ")));
+            out.push_str(&format!(
+                "def use{i}(x: {}{}): i64 {{ x.case{} {{ {} }} }}\n",
+                d.name,
+                ilist(d.params),
+                ilist(d.params),
+                clauses.join(", ")
+            ));
+            uses.push(format!("use{i}(N{i})"));
+        } else {
+            let nx = 1 + c.weighted(&[50, 35, 15]);
+            let mut dtors = vec![format!("v{i}: i64")];
+            for x in 0..nx {
+                dtors.push(format!("d{i}_{x}: {}", texpr(&mut c, &decls, d.params, 3)));
+            }
+            out.push_str(&format!("codata {}{} {{ {} }}\n", d.name, plist(d.params), dtors.join(", ")));
+            out.push_str(&format!("def obs{i}(x: {}{}): i64 {{ x.v{i}{} }}\n", d.name, ilist(d.params), ilist(d.params)));
+        }
+    }
+    if uses.is_empty() {
+        uses.push("0".into());
+    }
+    out.push_str(&format!("def main(): i64 {{ {} }}\n", uses.join(" + ")));
+    out
+}
+
+/// entry of the child process (`sccv compile1 x <file>`): exit status 0 = handled, 3 = the harness
+/// oracle failed (message on stdout); anything else is the compiler dying
+pub fn child_main(file: &str) -> i32 {
+    let text = std::fs::read_to_string(file).unwrap_or_default();
+    // Rust's default thread stack (the one the repository's own tests run on): these inputs are not deeply nested
+    let h = std::thread::Builder::new().stack_size(2 << 20).spawn(move || run_text(&text, "declaration stress"));
+    match h.map(|h| h.join()) {
+        Ok(Ok(CaseResult::Fail(f))) => {
+            println!("FAIL {}", f.summary);
+            3
+        }
+        Ok(Ok(CaseResult::Pass { classes, .. })) => {
+            println!("CLASSES {}", classes.join("|"));
+            0
+        }
+        Ok(Ok(_)) => 0,
+        _ => {
+            println!("FAIL worker thread died");
+            3
+        }
+    }
+}
+
+pub fn run_in_child(ctx: &Ctx, text: &str) -> CaseResult {
+    let file = ctx.scratch.join(format!("c18_{:016x}.sc", hash_str(text)));
+    if std::fs::write(&file, text).is_err() {
+        return CaseResult::Discard("infra: cannot write scratch file".into());
+    }
+    let exe = std::env::current_exe().expect("exe");
+    // address-space cap: a runaway child must not take the machine down
+    let script = format!("ulimit -v 6000000; exec '{}' compile1 x '{}'", exe.display(), file.display());
+    let args = vec!["-c".to_string(), script];
+    let r = crate::native::run_with_timeout(std::path::Path::new("/bin/sh"), &args, std::time::Duration::from_secs(ctx.tier.pick(60, 180)));
+    let _ = std::fs::remove_file(&file);
+    let fail = |kind: &str, summary: String| CaseResult::Fail(Failure { kind: kind.into(), summary, details: json!({"source": text, "input_kind": "declaration stress"}) });
+    match r {
+        Err(e) => CaseResult::Discard(format!("infra: cannot start the child process: {e}")),
+        Ok(r) if r.timed_out => CaseResult::Discard("infra: child process exceeded its time budget (inconclusive)".into()),
+        Ok(r) => {
+            let out = String::from_utf8_lossy(&r.stdout).into_owned();
+            match (r.code, r.signal) {
+                (Some(0), _) => {
+                    let classes: Vec<String> = out
+                        .lines()
+                        .find_map(|l| l.strip_prefix("CLASSES "))
+                        .map(|l| l.split('|').map(|s| s.to_string()).collect())
+                        .unwrap_or_default();
+                    let accepted = classes.iter().any(|c| c == "accepted");
+                    CaseResult::Pass { nontrivial: accepted, hash: hash_str(text), classes, sample: Some(json!({"source": text})) }
+                }
+                (Some(3), _) => fail("panic", out.lines().find_map(|l| l.strip_prefix("FAIL ")).unwrap_or("oracle failed").to_string()),
+                (code, sig) => {
+                    let err = String::from_utf8_lossy(&r.stderr);
+                    let last = err.lines().rev().find(|l| !l.trim().is_empty()).unwrap_or("").to_string();
+                    if err.contains("memory allocation of") {
+                        return CaseResult::Discard("infra: child process exceeded its memory budget (inconclusive)".into());
+                    }
+                    fail(
+                        "abort",
+                        format!("the compiler process dies on a {}-byte input without deep nesting (exit {code:?}, signal {sig:?}): {last}", text.len()),
+                    )
+                }
+            }
+        }
+    }
+}
+
 pub fn check(ctx: &Ctx) -> i32 {
     let start = Instant::now();
     let mut ev = Evidence::default();
-    ev.rule = "inputs: token-level mutations (insert/delete/replace/swap from the lexer's vocabulary including combined tokens and oversized numbers), byte-level mutations, extreme literals, nesting up to depth 130 (quick) / 260 (thorough) of five nesting forms, entry-point variations (no main, 0..7 parameters, non-integer parameters/result), and unmodified generated programs; oracle: parse_module and Program::check return Ok or Err (no panic); accepted programs with a valid entry point pass fun2core, focusing, shrinking, linearization and all three code generators without a panic other than the two documented capacity assertions (and the RISC-V backend's documented `print` limitation). Non-trivial: the input parses (reaches the type checker); distinct by hash of the text. thorough additionally replays the corpus of the libFuzzer target (fuzz/).".into();
+    ev.rule = "inputs: token-level mutations (insert/delete/replace/swap from the lexer's vocabulary including combined tokens and oversized numbers), byte-level mutations, extreme literals, nesting up to depth 130 (quick) / 260 (thorough) of five nesting forms, entry-point variations (no main, 0..7 parameters, non-integer parameters/result), and unmodified generated programs; oracle: parse_module and Program::check return Ok or Err (no panic); accepted programs with a valid entry point pass fun2core, focusing, shrinking, linearization and all three code generators without a panic other than the two documented capacity assertions (and the RISC-V backend's documented `print` limitation). Non-trivial: the input parses (reaches the type checker); distinct by hash of the text. Second domain (declaration stress): generated polymorphic data/codata declarations whose fields mention the declared types at arbitrary type arguments up to depth 3 (non-regular and mutually recursive instantiation), used by a small program; each text is compiled in a child process on a 2 MB stack (the default thread stack, on which the repository's own tests run) under a 6 GB address-space cap, and a process that dies (signal, abort, stack exhaustion on an input of a few hundred bytes) is a violation, a time-out or an exhausted memory budget is inconclusive (counted as discarded). thorough additionally replays the corpus of the libFuzzer target (fuzz/).".into();
     ev.assumptions = vec!["recursion depth of the front end is bounded by the nesting depth generated (stack exhaustion is outside the property's 'within stack limits')".into()];
     let mut report = Report { violations: vec![], infra_errors: vec![] };
     for k in ctx.known.iter().filter(|k| k.property == "C18" && k.status == "known") {
@@ -270,6 +428,16 @@ pub fn check(ctx: &Ctx) -> i32 {
     if let Some((bytes, f)) = out.failure {
         eprintln!("{}", f.summary);
         report.violations.push(write_replay(ctx, "mutation", &bytes, &f));
+    }
+    // declaration stress, each text in its own process
+    if report.violations.is_empty() {
+        let n2 = ctx.tier.pick(400, 20000);
+        let run2 = |b: &[u8]| run_in_child(ctx, &decl_stress(b));
+        let out2 = drive(&mut ev, ctx.seed, 1018, n2, 20, 200, 16, &run2);
+        if let Some((bytes, f)) = out2.failure {
+            eprintln!("{}", f.summary);
+            report.violations.push(write_replay(ctx, "decls", &bytes, &f));
+        }
     }
     // coverage-guided campaign (thorough only)
     if ctx.tier == Tier::Thorough && report.violations.is_empty() {
@@ -333,6 +501,9 @@ pub fn check(ctx: &Ctx) -> i32 {
 pub fn replay(ctx: &Ctx, sub: &str, bytes: &[u8], case: &serde_json::Value) -> CaseResult {
     if sub.starts_with("text") {
         return run_text(case["source"].as_str().unwrap_or(""), "replay");
+    }
+    if sub.starts_with("decls") {
+        return run_in_child(ctx, &decl_stress(bytes));
     }
     let (text, kind) = mutated_input(ctx, bytes);
     run_text(&text, kind)
